@@ -90,15 +90,15 @@ VARIANTS.update({
     'simple_bounds@sd0': ('simple_bounds', dict(second_derivatives=0.0)),
     'simple_bounds@icg': ('simple_bounds', dict(infeasible_cg=True)),
     'simple_bounds@r0.1': ('simple_bounds', dict(initial_radius=0.1)),
-    'simple_bounds@tol': ('simple_bounds', dict(tolerance=1e-8)),
-    'simple_bounds_BFGS@tol': ('simple_bounds_BFGS', dict(tolerance=1e-8)),
-    'TR-BFGS@tol': ('TR-BFGS', dict(tolerance=1e-8)),
-    'LS-BFGS@tol': ('LS-BFGS', dict(tolerance=1e-8)),
-    'TR-newton@tol': ('TR-newton', dict(tolerance=1e-8)),
+    'simple_bounds@tol': ('simple_bounds', dict(tolerance=1e-6)),
+    'simple_bounds_BFGS@tol': ('simple_bounds_BFGS', dict(tolerance=1e-6)),
+    'TR-BFGS@tol': ('TR-BFGS', dict(tolerance=1e-6)),
+    'LS-BFGS@tol': ('LS-BFGS', dict(tolerance=1e-6)),
+    'TR-newton@tol': ('TR-newton', dict(tolerance=1e-6)),
     'TR-newton@nodogleg': ('TR-newton', dict(dogleg=False)),
     'TR-BFGS@nodogleg': ('TR-BFGS', dict(dogleg=False)),
     'TR-newton@r0.1': ('TR-newton', dict(initial_radius=0.1)),
-    'LS-newton@tol': ('LS-newton', dict(tolerance=1e-8)),
+    'LS-newton@tol': ('LS-newton', dict(tolerance=1e-6)),
     'simple_bounds@it2': ('simple_bounds', dict(max_iterations=2)),
     'simple_bounds_BFGS@it2': ('simple_bounds_BFGS', dict(max_iterations=2)),
     'LS-BFGS@it2': ('LS-BFGS', dict(max_iterations=2)),
@@ -541,7 +541,10 @@ def check_run(rec, tpl, rows, prob, refs, bname, lb, ub, bkind, sidx, variant, m
     target_ll = ll_box if bounded else ll_free
 
     # (1) feasibility
-    infeasible = [i for i in range(nf) if (lb[i] is not None and xs[i] < lb[i]) or (ub[i] is not None and xs[i] > ub[i])]
+    # (rounding policy: 1e-10 relative + 1e-12 absolute; a step to the boundary may land one ulp outside)
+    ftol = lambda v: 1e-10 * abs(v) + 1e-12
+    infeasible = [i for i in range(nf) if (lb[i] is not None and xs[i] < lb[i] - ftol(lb[i]))
+                  or (ub[i] is not None and xs[i] > ub[i] + ftol(ub[i]))]
     if bounded and infeasible:
         viol('bounds-violated', f'estimate {xs} leaves the box on free parameter(s) {infeasible}', expected=[lb, ub], observed=xs)
     # (2) recomputation: reported logLike is the likelihood at the returned estimates
@@ -594,14 +597,15 @@ def check_run(rec, tpl, rows, prob, refs, bname, lb, ub, bkind, sidx, variant, m
         viol('above-reference-maximum', f'likelihood at x* {ref_ll!r} exceeds the reference maximum {target_ll!r} of the '
              f'{"box" if bounded else "unconstrained"} problem', expected=target_ll, observed=ref_ll)
     # (6) at reported convergence: KKT and agreement with the reference optimum.
-    # Tolerances: DESIGN (gradient 1e-2*scale, value 1e-6*scale) with the value tolerance widened to what the
-    # algorithms' own stopping rule permits on this problem: relative gradient <= tau with typf = max(1,|LL(start)|),
-    # i.e. |g_i| <= tau*S, propagated through the curvature: gap <= 1/2 g'(-H)^-1 g <= K^2*max|(-H)^-1|*(tau*S)^2.
+    # Tolerances: DESIGN (gradient 1e-2*scale, value 1e-6*scale), widened only to what the algorithms' own stopping
+    # rule permits on this problem: relative gradient max_i |g_i|*max(|x_i|,1)/max(|LL|, typf) <= tau with
+    # typf = max(1,|LL(start)|), i.e. |g_i| <= tau*S (a start with a very low likelihood legitimately loosens it),
+    # propagated through the curvature for the value: gap <= 1/2 g'(-H)^-1 g <= K^2*max|(-H)^-1|*(tau*S)^2.
     tau = float(extra.get('tolerance', DEFAULT_TOLERANCE))
     S = max(1.0, abs(ll_start), abs(ref_ll))
-    gtol = 1e-2 * scale
+    gtol = max(1e-2 * scale, 1.5 * tau * S)
     if 'tolerance' in extra:
-        gtol = min(gtol, 1e3 * tau * S)  # a configured (tight) tolerance must be visible in the returned point
+        gtol = min(gtol, 100.0 * tau * S)  # a configured (tight) tolerance must be visible in the returned point
     vtol = max(1e-6 * scale, nf * nf * refs['ib'] * (tau * S) ** 2)
     if conv:
         for i in range(nf):
@@ -624,6 +628,15 @@ def check_run(rec, tpl, rows, prob, refs, bname, lb, ub, bkind, sidx, variant, m
                  expected=target_ll, observed=ref_ll)
     # (7) option plumbing that is visible in the result: max_iterations is an upper bound
     mi = extra.get('max_iterations')
+    if not conv and mi is None and fam != 'scipy':
+        # not demanded by the statement as such (it is conditional on reported convergence); on these tiny concave
+        # problems every run of the biogeme_optimization algorithms converges on the unchanged tree, so a run that
+        # does not is reported (a broken hand-over of the function / derivatives shows up here first)
+        viol('no-convergence-on-a-small-concave-problem', f'convergence not reported; returned x*={xs} LL={ref_ll!r}, reference '
+             f'maximum {target_ll!r}; cause: {data.optimizationMessages.get("Cause of termination")}', expected='convergence',
+             observed=str(data.optimizationMessages.get('Cause of termination')))
+    if not conv:
+        rec.count('not_converged:' + variant)
     if mi is not None:
         nit = data.optimizationMessages.get('Number of iterations')
         try:
